@@ -228,6 +228,11 @@ func (r *Run) Count(quick, thorough int) int {
 		return r.N
 	}
 	if r.Tier == "thorough" {
+		// the thorough tier is meant to finish in minutes per property: at most 10x the quick volume
+		// (all of it is evaluated inside Coq by vm_compute); VERIF_THOROUGH_FULL=1 lifts the cap (soak run)
+		if os.Getenv("VERIF_THOROUGH_FULL") == "" && thorough > 10*quick {
+			return 10 * quick
+		}
 		return thorough
 	}
 	return quick
